@@ -330,6 +330,17 @@ class Interp:
     def lookup(self, name, fr, node=None):
         if fr.has(name):
             return fr.lookup(name)
+        cs = getattr(fr, 'class_scope', None)
+        if cs is not None:
+            # an expression of a class body: names defined earlier in the body are in scope (a def is a plain function there)
+            if name in cs.methods:
+                f = FuncRef(cs.methods[name], cs.module, cs)
+                decs = f.decorators()
+                return f if not decs or all(d in ('staticmethod', 'classmethod') for d in decs) else self.decorated(f)
+            if name in cs.class_attrs:
+                r = self.class_attr(cs, name, None)
+                if r is not None:
+                    return r
         return self.global_lookup(name, fr.module, node)
 
     def global_lookup(self, name, module, node=None):
@@ -1205,7 +1216,9 @@ class Interp:
                 # class attributes are observable state), and assignments to Class.attr rebind it
                 cache = self.__dict__.setdefault('_class_vals', {})
                 if (c.qual, a) not in cache:
-                    cache[(c.qual, a)] = self.ev(c.class_attrs[a], Frame(c.module, cls=c))
+                    cfr = Frame(c.module, cls=c)
+                    cfr.class_scope = c
+                    cache[(c.qual, a)] = self.ev(c.class_attrs[a], cfr)
                 v = cache[(c.qual, a)]
                 if isinstance(v, FuncRef) and isinstance(v.node, ast.Lambda) and inst is not None:
                     return Bound(inst, v)
